@@ -126,7 +126,7 @@ PROPS = {
         level_text="Coq theorems. For every table state and start symbol: (1) DEPENDENCIES FIRST - the list one operation walks (Table.linked: breadth-first in-degree count, then Kahn's algorithm; the model's fuel is shown sufficient) holds, when the references are acyclic, exactly the symbols that reach the start symbol through references, once each, and every symbol in it comes after all the symbols of the list it refers to; the load notifications of one load are a subsequence of it (dependencies first), the unload notifications of one unload a subsequence of its reverse (dependents first); without acyclicity the part Kahn's loop produced is still ordered. (2) WRAPPING - one activation notifies the init flow, then (only if it did not fail) the load hooks once and the begin flow; symmetrically term/unload/final. (3) ABORT - after the first failing flow nothing more is notified and the error an Insert returns is a flow's error. Tied to pkg/symbol by correspondence: generated histories (acyclic universes, lifecycle ports attached to responder nodes that succeed or fail, all insertion/removal orders the generator draws) on a real Table; per-symbol notification sequences and results compared with the model up to the first aborted operation, and a Go oracle evaluates the order, wrapping and abort clauses on the notifications of every operation.",
         level_note="Proved about the hand-written model of table.go; the model fixes Go's map iteration order, which the theorems do not depend on (they hold for the list order the model picks, and the implementation's notification order is compared per symbol and checked by the oracle across symbols). After an aborted operation the set of already-notified independent dependents depends on Go map order, so the model comparison stops there (the oracle continues). Trusted as C06.",
         technique="Coq proofs (Kahn ordering with fuel sufficiency, shape of activation/deactivation, abort) + vm_compute correspondence + direct ordering oracle",
-        quick_n=300, thorough_n=8000, shard=20, mismatch_is_failure=True,
+        quick_n=500, thorough_n=8000, shard=20, mismatch_is_failure=True,
         assumptions=["one table operation at a time (C20)", "at most one responder per lifecycle port"],
         trusted_base=["pkg/symbol/table.go, symbol.go and the Link/Unlink/close-hook behaviour of pkg/port transcribed by hand into theories/Table/Table.v (Go map iteration order fixed; observables compared as sets / per-symbol sequences)", COMMON_MODEL],
     ),
@@ -134,7 +134,7 @@ PROPS = {
         level_text="Coq theorems for every history of Insert/Free/Close with fresh instances: at most one symbol per id and per instance; every port link joins existing ports of two PRESENT symbol instances of ONE namespace (no link to a removed or replaced symbol, none across namespaces); lookup returns the inserted symbol after Insert and nothing after Free. REFERENCE INDEX EXACT: along every history whose references carry an id or a name (not both) and in which a name is used by one symbol of a namespace at a time, Table.references holds exactly the resolved port references of the present symbols, reversed (nothing stale, nothing missing), and the name map resolves exactly to the present symbol of that namespace and name. WIRING EXACT: along the same histories (every inserted symbol a new instance; lifecycle flows may fail) the port links are exactly the resolved references of the present symbols between ports their nodes offer - every such reference is linked and nothing else is. Tied to pkg/symbol by exact comparison with the implementation: generated universes (ids, names, two namespaces, cycles, self and dangling references, missing ports) and histories on a real symbol.Table with real nodes, with Keys and the wiring of every out-port (resolved by pointer identity to instances) after every operation.",
         level_note="Trusted: Coq kernel + vm_compute; hand transcription of table.go / symbol.go / port linking. The history condition is computable (wf_from_b / wf3_from_b) and all generated histories meet it; histories outside it (two symbols of one name in a namespace, references with both id and name, reused instances) are outside the theorems.",
         technique="Coq invariant proof over histories (links sound, ids unique) + vm_compute correspondence of exact wiring sets",
-        quick_n=300, thorough_n=8000, shard=20, mismatch_is_failure=True,
+        quick_n=500, thorough_n=8000, shard=20, mismatch_is_failure=True,
         assumptions=["one table operation at a time (Table serialises them under its mutex; C20)", "hooks succeed"],
         trusted_base=["pkg/symbol/table.go, symbol.go and the Link/Unlink/close-hook behaviour of pkg/port transcribed by hand into theories/Table/Table.v (Go map iteration order fixed; observables compared as sets / per-symbol sequences)", COMMON_MODEL],
     ),
@@ -142,7 +142,7 @@ PROPS = {
         level_text="Coq theorems. ACTIVE = CLOSURE PRESENT, over histories: along every history of Insert/Free/Close in which references carry an id or a name (not both), a name is used by one symbol of a namespace at a time, every inserted symbol is a new instance and the lifecycle flows succeed, the instances with a load notification and no later unload are, after every operation, exactly the present symbols whose whole reference closure is present, and nothing else; after Close no symbol is left and none is active. Ingredients, each a theorem for every table state: the activation test (isActivated: depth-first walk with a visited set; fuel shown sufficient) decides 'the reference closure is present'; the list a load/unload walks (Table.linked) holds exactly the symbols that reach the start symbol through the reference index, cycles included; the reference index is exactly the reverse of the resolved references (C06); a load (unload) whose flows succeed notifies exactly the walked symbols whose closure is present; adding a symbol completes exactly the closures of the symbols that reach it, removing it breaks exactly those; within one removal the unload notifications precede the node close. ALTERNATION: along the same histories every load notification finds its instance inactive and every unload notification finds it active, so the notifications of an instance strictly alternate, starting with a load (the walk never lists a symbol twice, cycles included). Tied to pkg/symbol by correspondence: after every operation of every generated history (shared targets, chains, cycles, dangling references, replacements) active sets and per-instance notification sequences of a real Table must coincide with the model's, and a Go oracle recomputes the closure from the specs.",
         level_note="The history condition is computable (wf2_from_b) and every generated history of the correspondence run meets it; histories with two symbols of one name in a namespace, references carrying both id and name, reused instances or failing lifecycle flows (C08) are outside the theorems (the implementation does not reject them). Proved about the hand-written model; trusted as C06.",
         technique="Coq proofs (invariant over histories: reference index exact, active set = closed symbols; DFS closure test; Kahn walk membership; exact notification set of one operation) + vm_compute correspondence + direct closure/alternation oracle",
-        quick_n=300, thorough_n=8000, shard=20, mismatch_is_failure=True,
+        quick_n=500, thorough_n=8000, shard=20, mismatch_is_failure=True,
         assumptions=["one table operation at a time (C20)", "hooks succeed (failing lifecycle flows are C08)"],
         trusted_base=["pkg/symbol/table.go, symbol.go and the Link/Unlink/close-hook behaviour of pkg/port transcribed by hand into theories/Table/Table.v (Go map iteration order fixed; observables compared as sets / per-symbol sequences)", COMMON_MODEL],
     ),
@@ -150,7 +150,7 @@ PROPS = {
         level_text="Coq theorems about Runtime.Load and the two Reconcile handlers over abstract stores: after Load(nil) the table maps each id to exactly the binding of the spec stored under it in the runtime's namespace against the current values and to nothing otherwise; a filtered Load does this for the covered ids and leaves the rest alone; a repeated Load returns the same table and emits no notification; along any history of insert/update/delete on both stores in which each change is followed by the handling of its event the table is, at every quiet point, exactly what the stores prescribe. PARTIAL: backlogs of several unhandled events and the interleaving of the two handler goroutines are exercised on the implementation (bursts, then the quiescent table is compared with the model's), not proved. Correspondence: a real Runtime over real stores, scheme and hooks; the table through a verif accessor and the load/unload hook log after every Load / settled change; a scripted overlap of two Loads.",
         level_note="Partial as stated. Trusted: Coq kernel + vm_compute; hand transcription of runtime.go, Meta.Bind/IsBound and Unstructured.Build at the granularity of (id, namespace, kind, body version, environment references, one templated field). Symbols whose Bind failed are compared without their environment (Go map order). Namespaces of specs and values are fixed for life; value names are unique per namespace in generated histories.",
         technique="Coq proof (finite-map refinement of Load to the stores' prescription, idempotence, inductive convergence invariant for Reconcile) + vm_compute correspondence against a real Runtime + scripted Load overlap",
-        quick_n=300, thorough_n=6000, shard=50, mismatch_is_failure=True,
+        quick_n=500, thorough_n=6000, shard=50, mismatch_is_failure=True,
         assumptions=["spec and value ids are unique (the store's id index)", "a spec and a value keep their namespace for life", "each Load is atomic (the repaired Runtime serialises Loads)", "hooks and codecs do not call back into the runtime"],
         trusted_base=["pkg/runtime/runtime.go (Load, Reconcile handlers), pkg/spec/spec.go (Bind, IsBound), pkg/spec/unstructured.go (Build) transcribed by hand into theories/Runtime/Load.v", COMMON_MODEL],
     ),
@@ -166,7 +166,7 @@ PROPS = {
         level_text="Coq theorem about DecoderGroup.Decode with its success cache as explicit state: for members whose rejection is determined by the source type and leaves the target untouched, the result after any warm-up history equals the cold result (first member that handles the source type decides); plus a refutation witness for the pinned algorithm. The group algorithm is tied to group.go exactly (a real encoding.DecoderGroup over synthetic members, including hypothesis-violating ones, vs. the model). PARTIAL: the composite decoders of pkg/types do not satisfy the hypothesis (measured on every run: hyp_* counters); for the real codec purity is checked directly (same outcome on a cold decoder, after warm-up histories, and from 8 goroutines), not proved.",
         level_note="Partial proof: theorem conditional on kind-determined rejection, which holds for primitive decoders only; real-codec purity is differential testing. Trusted: Coq kernel + vm_compute; transcription of group.go; verif hooks listing group members and building a fresh decoder.",
         technique="Coq proof (cache invariant: cached member = first supporting member) + exact correspondence of the group algorithm on synthetic members + direct purity oracle on the real codec",
-        quick_n=300, thorough_n=6000, shard=60, mismatch_is_failure=True,
+        quick_n=600, thorough_n=6000, shard=60, mismatch_is_failure=True,
         assumptions=["reflect.TypeOf(source) is the cache key (sources of one Go type share an entry)"],
         trusted_base=["pkg/encoding/group.go transcribed by hand into theories/Codec/Group.v", COMMON_MODEL, "verif hooks: DecoderGroup.VerifDecoders, types.VerifNewDecoder"],
     ),
@@ -174,7 +174,7 @@ PROPS = {
         level_text="Coq theorems by structural induction over JSON-like documents of any nesting, for every text/template engine that renders action-free text to itself: fields without a template action come back equal from Build whatever the environment; execution changes nothing but the text of strings and keys (same shape); an identified variable without a value is rejected by Bind. The engine assumption is proved for the Gallina engine of the {{ . }} / {{ .NAME }} fragment used in the correspondence run, which executes Bind+Build on the real spec.Unstructured for generated specs/values and compares result, error class and panics with the model.",
         level_note="Trusted: Coq kernel + vm_compute; hand transcription of template.go/node.go and Meta.Bind/Unstructured.Build; Go's text/template is a Section variable constrained only by render_plain (recorded assumption) and modelled for the generated fragment; nil and empty containers are identified (JSON view).",
         technique="Coq structural induction (nested document type) with the template engine as a Section variable + vm_compute correspondence",
-        quick_n=500, thorough_n=15000, shard=40, mismatch_is_failure=True,
+        quick_n=900, thorough_n=15000, shard=40, mismatch_is_failure=True,
         assumptions=["text/template renders text without '{{' unchanged (render_plain)"],
         trusted_base=["pkg/template, pkg/spec (Bind/Build), pkg/value (Is) transcribed by hand into theories/Template/Template.v", COMMON_MODEL],
     ),
@@ -190,7 +190,7 @@ PROPS = {
         level_text="Coq theorems about one writer, its readers, their closes (with the delayed drop notices of Reader.Close) and the requester that takes responses from Writer.Receive() at arbitrary points: once the writer is closed every write it ever accepted has exactly one response queued, in write order (joined answer or dropped-packet error); whatever the interleaving, what the requester has taken is a prefix of that queue - nothing lost, duplicated or reordered, whether or not it was already waiting when the writer closed (the repaired defect); a take with nothing left reports the closed channel or waits, never a nil packet for an owed answer. PARTIAL: node, port and process teardown are not modelled; they are enumerated on the implementation (src -> A -> B -> sink, actions held open, the request at each point of its way, a pipelined second request and a request of another process on the same nodes, one or two of ten teardown actions): every requester returns within 1.5 s with its real answer or a dropped-packet error, no panic, unaffected requesters get their real answer.",
         level_note="Partial as stated. 'Promptly' is a deadline on the implementation (1.5 s), not a theorem. When the part downstream of a node is closed before the node writes, the node's own result is the answer (as for an unconnected port, C02) and is accepted as well-formed. Trusted: Coq kernel + vm_compute; hand transcription of writer.go / reader.go (Packet/Writer.v) and of the pump; the verif gate in Writer.receive to deliver Reader.Close's drop notices one by one.",
         technique="Coq proof (ledger of C01 extended over writer close; lossless-FIFO refinement of the pump and the requester) + vm_compute correspondence of a real writer under teardown + crash-point enumeration oracle on a real workflow",
-        quick_n=300, thorough_n=5000, shard=100, mismatch_is_failure=True,
+        quick_n=500, thorough_n=5000, shard=100, mismatch_is_failure=True,
         assumptions=["a requester that was owed an answer keeps reading Writer.Receive() (a writer nobody reads keeps its pump goroutine: C05)"],
         trusted_base=["pkg/packet/writer.go, reader.go transcribed by hand into theories/Packet/Writer.v, the pump goroutine into theories/Packet/Teardown.v", COMMON_MODEL],
     ),
@@ -230,7 +230,7 @@ PROPS = {
         level_text="Coq theorems for every history over the property's alphabet (any number of readers, any order): the serials of the responses emitted so far followed by the serials of the writes still pending are exactly 0..accepted-1 - each accepted write is answered at most once, in write order, none lost; a write that reports zero accepting readers gets no response; responses are joins (errors dominate, empty answers vanish, payloads in link order); positional lookups stay in range; ATTRIBUTION: for every history in which no reader is linked again while it still owes answers, the rows pending in a linked reader's column are exactly, oldest first, the writes it still owes, so the row Writer.receive picks for an answer (indexOfHead) is the row of the oldest owed write; the excluded stale re-link is refuted by a six-step witness (finding F-C01-d). Tied to pkg/packet by driving one real Writer and real Readers through generated histories (the goroutines Reader.Close spawns are parked in a build-tagged gate and delivered as explicit steps) and comparing every return value, the response stream and the requests seen by each reader with the model, plus an identity-based request/response ledger in Go as failing-input oracle for attribution.",
         level_note="Trusted: Coq kernel + vm_compute; hand transcription of writer.go/reader.go/packet.go; steps are the code's critical sections (their atomicity is C20). Attribution of an answer to its ROW is proved (C01_pending_is_owed, C01_answer_attribution); that the emitted response is the join of exactly that row's cells is by construction of flush; drop notices of one reader are interchangeable (any of them fills the oldest pending row of the column). Known finding F-C01-d (stale re-link) is outside ok_hist and refuted by C01_stale_relink_misattributes.",
         technique="Coq invariant proofs over histories (ledger of serials; pending-column = owed-queue invariant for attribution) + vm_compute correspondence + identity-based ledger oracle in Go",
-        quick_n=400, thorough_n=12000, shard=40, mismatch_is_failure=True,
+        quick_n=800, thorough_n=12000, shard=40, mismatch_is_failure=True,
         assumptions=["one writer; operations of the alphabet are atomic (each is a critical section of the code)"],
         trusted_base=["pkg/packet writer.go/reader.go/packet.go transcribed by hand into theories/Packet/Writer.v", COMMON_MODEL, "verif hook at the top of Writer.receive (gate for deferred drop notices)"],
     ),
@@ -270,7 +270,7 @@ PROPS = {
         level_text="Coq theorems over all operation histories: every live map object agrees with a reference dictionary keyed by value equality on Has/Get/Len and listings (bindings, distinct keys, count, iteration order), operations return the same object as the reference, the representation invariant holds in every reachable state, the code's binary search equals a linear scan, and no operation changes any object but the mutable map it targets (snapshots are frames). Tied to pkg/types/map.go by replaying generated histories (colliding keys, overwrites, snapshots) on real maps, re-reading every live object after every step, and evaluating the model on the same history in Coq.",
         level_note="Trusted: Coq kernel + vm_compute; hand transcription of map.go into VMap.v; Go's map[uint64] modelled as an association list; the tie is differential on generated histories only; single-goroutine use.",
         technique="Coq refinement proof (sorted-bucket invariant, binary-search correctness, simulation to an association list) + vm_compute correspondence with the Go implementation",
-        quick_n=240, thorough_n=6000, shard=15, mismatch_is_failure=True,
+        quick_n=400, thorough_n=6000, shard=15, mismatch_is_failure=True,
         assumptions=[
             "operations on one map are applied one at a time (concurrent use is C20's concern)",
             "Go's built-in map[uint64] behaves as a finite map (modelled as a hash-ordered association list)",
@@ -281,7 +281,7 @@ PROPS = {
         level_text="Coq theorems: Equal is an equivalence, Compare a total preorder consistent with it (antisymmetric sign, transitive, zero on equal values), equal values hash alike - for every term of the value model (all kinds, widths, bit patterns incl. NaN/+-0/Inf, any nesting, nil). Tied to pkg/types by a differential run (Equal/Compare/Hash of generated pairs evaluated in Coq by vm_compute, 64-bit hashes compared exactly) plus a direct law checker on triples and a purity probe used to exhibit a failing input.",
         level_note="Trusted: Coq kernel + vm_compute; hand transcription of pkg/types into Value.v; IEEE comparison modelled by a (sign, magnitude) key; the tie is differential on generated cases only. Purity over a value's lifetime is probed on the implementation and true by construction in the model.",
         technique="Coq proof by nested structural induction (comparator combinators) + vm_compute correspondence with the Go implementation",
-        quick_n=450, thorough_n=12000, shard=60,
+        quick_n=900, thorough_n=12000, shard=60,
         assumptions=[
             "Go float ==,<,> on non-NaN operands is the order of the (sign, magnitude) key of the bit pattern (IEEE-754)",
             "little-endian 64-bit platform (hash bytes of integers come from unsafe pointers)",
